@@ -35,7 +35,7 @@ class Contract:
                  static=False, with_handler=None, setup=None, on_yield=None, notes="", ghost=None,
                  exc_ensures=None, receiver_from_call=False, lemma_facts=None, harness=None, returns=None, constructor=False,
                  variant=None, new_obj=None, init_obj=None, yields=None,
-                 yield_may_throw=None, generator=False):
+                 yield_may_throw=None, generator=False, expected_dead=()):
         self.file, self.qualname, self.params = file, qualname, params
         self.requires, self.ensures, self.raises = requires, ensures, raises or {}
         self.loops = loops or {}
@@ -62,6 +62,8 @@ class Contract:
         self.yields = yields        # lambda S, a, v: clauses that must hold at every ``yield v``
         self.yield_may_throw = yield_may_throw
         self.generator = generator or yields is not None
+        # exit points that are unreachable under this contract's precondition: [(label, text the statement starts with)]
+        self.expected_dead = tuple(expected_dead)
         if returns is not None and make_result is None:
             def _mk(eng, st, bound, _spec=returns):
                 return make_symbolic(eng, eng.new_base("ret:" + qualname), _spec, st, set())
